@@ -111,6 +111,12 @@ def vZip (f : Rat → Rat → Rat) (a b : List Rat) : Option (List Rat) :=
 def npZeros (n : Int) : List Rat := List.replicate n.toNat 0
 def npOnes (n : Int) : List Rat := List.replicate n.toNat 1
 
+/-- `range(a, b)` -/
+def rangeInt (a b : Int) : List Int := (List.range (b - a).toNat).map (fun (k : Nat) => a + (k : Int))
+
+/-- `int(x)` for a float: truncation towards zero -/
+def pyTrunc (x : Rat) : Int := if 0 ≤ x then x.floor else -((-x).floor)
+
 def pyAbs (x : Rat) : Rat := PySpike.qabs x
 
 /-- `np.searchsorted(a, v, side='right')` on a sorted array: the number of entries `≤ v`
